@@ -434,7 +434,7 @@ func c09Mutate(rng *Rng, ts []efp.Token) []efp.Token {
 // kept so that a regression is reproduced deterministically)
 var c09EvWitnesses = []string{"({1}+SUM(2))", "'*'(1 2+3)", "SUM(1 '*'(2+3))", "'-'(1 2-3)", "'='(1 2=3)", "({1;2}+SUM(2)+(3))",
 	"1)", "SUM(1))", ")", "{1}+SUM(2)", "SUM((1,2))", "SUM(,)", "{SUM(1)}", "SUM({1}{2})", "1%%", "--1", "SUM(A1:A2,A1)", "SUM(A1:A2 A1)",
-	"SUM(({1,2}))", "SUM((1+{1,2}))", "LOOKUP((2,/{1,2,3},{\"a\",\"b\",\"c\"})", "SUM(0:0)", "1:0", "SUM(1:1048577)", "{(SUM(1))}", "SUM({(SUM(1))})", "{1,(SUM(1))}", "{(1)}", "SUM(({{1}}))", "({{1}})", "SUM({{1}})", "{SUM(1,2)}", "SUM({SUM(1,2)},{3})", "1+", "SUM(1+)", "1*", "-", "(1+)", "1&", "SUM(1,)", "SUM(+)", "1<", "(({1}))", "SUM(({1}))", "({1})+SUM(1,(2))", "'*'((1 2)+3)", "SUM('*'(1,2) 3+4)"}
+	"SUM(({1,2}))", "SUM((1+{1,2}))", "LOOKUP((2,/{1,2,3},{\"a\",\"b\",\"c\"})", "SUM(0:0)", "1:0", "SUM(1:1048577)", "{(SUM(1))}", "SUM({(SUM(1))})", "{1,(SUM(1))}", "{(1)}", "SUM(({{1}}))", "SUM((SUM({SUM({1})})))", "SUM({{1,2};{3}})", "{{1}}+SUM((({{2}})))", "({{1}})", "SUM({{1}})", "{SUM(1,2)}", "SUM({SUM(1,2)},{3})", "1+", "SUM(1+)", "1*", "-", "(1+)", "1&", "SUM(1,)", "SUM(+)", "1<", "(({1}))", "SUM(({1}))", "({1})+SUM(1,(2))", "'*'((1 2)+3)", "SUM('*'(1,2) 3+4)"}
 
 func c09EvStream(r *Run, rng *Rng) {
 	f := c09EvFile()
